@@ -13,7 +13,8 @@ Inductive dkind := DBegin | DStmt | DCommit | DRollback.
 (* an event: a driver operation, a hook invocation (failed?), the start of a callback that
    invokes hooks (before_create, after_create, before_update, ...) *)
 Inductive ev := EOp (k : dkind) (f : bool) | EHook (f : bool) | EMark.
-Inductive errk := XNil | XFault | XHook | XOther.
+(* XPre: an error the handle already carried when the operation started (a vetoing scope, AddError) *)
+Inductive errk := XNil | XFault | XHook | XOther | XPre.
 
 (* the body of a pipeline: what happens between BEGIN and COMMIT *)
 Definition pipeline := list ev.
@@ -78,6 +79,14 @@ Definition run_pipe (s : st) (body : pipeline) : st :=
   let nstm := nstmts body in
   if s_stop s then   (* the operation already returned; the statements keep their identity *)
     mkSt (s_err s) (s_live s) true (s_nops s) (s_nhooks s) (s_sid s + nstm) (s_work s) (s_db s) (s_commits s) (s_open s) (s_out s)
+  else if negb (is_nil (s_err s)) then
+    (* the handle already carries an error when the pipeline starts.  BeginTransaction:
+       if !SkipDefaultTransaction && db.Error == nil { .. }: no BEGIN, "gorm:started_transaction" is not
+       set; every callback of the body is guarded by db.Error == nil (step); CommitOrRollbackTransaction
+       finds nothing started and does nothing; the operation returns the error *)
+    let s2 := fold_left step body
+                (mkSt (s_err s) false (s_stop s) (s_nops s) (s_nhooks s) (s_sid s) (s_work s) (s_db s) (s_commits s) (s_open s) (s_out s)) in
+    mkSt (s_err s2) false true (s_nops s2) (s_nhooks s2) (s_sid s2) (s_work s2) (s_db s2) (s_commits s2) (s_open s2) (s_out s2)
   else
     let '(f, s1) := issue DBegin s in
     if f then   (* db.Error = tx.Error: every callback is guarded out, no transaction was started *)
@@ -98,6 +107,10 @@ Definition run_pipe (s : st) (body : pipeline) : st :=
              (s_open s3 - 1)%Z (s_out s3).
 
 Definition run_op (pipes : list pipeline) (db : list nat) : st := fold_left run_pipe pipes (init_st db).
+(* the same operation called on a handle that already carries the errors [pre] *)
+Definition init_pre (pre : list errk) (db : list nat) : st := mkSt pre false false 0 0 0 [] db 0 0%Z [].
+Definition run_op_pre (pre : list errk) (pipes : list pipeline) (db : list nat) : st :=
+  fold_left run_pipe pipes (init_pre pre db).
 End Run.
 
 Definition fault_at (k : option nat) : nat -> bool :=
